@@ -160,6 +160,9 @@ static void sg_add(vh_rng_t *r, sg_plan_t *p, cfg_sys_t *sys, int kind)
         { "dns://192.0.2.12:5353", "4:192.0.2.12|u5353|t5353|%|s0;" },
         { "dns://[2001:db8::13]:853?tcpport=8053", "6:2001:db8::13|u853|t8053|%|s0;" },
         { "dns://[fe80::14%eth0]", "6:fe80::14|u53|t53|%eth0|s2;" },
+        /* link-local without an interface: cannot be used, skipped - wherever it stands, whatever stood before it */
+        { "dns://[fe80::15]:53", "" },
+        { "fe80::16", "" },
       };
       int    n = vh_range(r, 1, 3), k, taken[3] = { -1, -1, -1 };
       size_t off = 0;
@@ -183,6 +186,9 @@ static void sg_add(vh_rng_t *r, sg_plan_t *p, cfg_sys_t *sys, int kind)
         cfg_bb_str(&p->resolv, forms[f].text);
         cfg_bb_str(&p->resolv, "\n");
         off += (size_t)snprintf(p->expect[kind] + off, sizeof(p->expect[kind]) - off, "%s", forms[f].eff);
+      }
+      if (p->expect[kind][0] == 0) {
+        snprintf(p->expect[kind], sizeof(p->expect[kind]), "%s", "4:127.0.0.1|u53|t53|%|s0;"); /* none usable: the default */
       }
       p->via[kind] = 0;
       break;
